@@ -337,6 +337,29 @@ func (t *c11Plumb) stmts(l []ast.Stmt, holderVar, holderKey string) ([]string, e
 	return out, nil
 }
 
+// the local that holds the checkpoint is called cp by the translation: a function that calls it
+// something else (x.State read or written, x a local or a parameter) has it renamed
+func c11RenameCheckpointVar(fn *ast.FuncDecl) {
+	objs := map[*ast.Object]bool{}
+	ast.Inspect(fn, func(n ast.Node) bool {
+		if sel, ok := n.(*ast.SelectorExpr); ok && sel.Sel.Name == "State" {
+			if id, ok := sel.X.(*ast.Ident); ok && id.Obj != nil && id.Obj.Kind == ast.Var && id.Name != "cp" {
+				objs[id.Obj] = true
+			}
+		}
+		return true
+	})
+	if len(objs) == 0 {
+		return
+	}
+	ast.Inspect(fn, func(n ast.Node) bool {
+		if id, ok := n.(*ast.Ident); ok && id.Obj != nil && objs[id.Obj] {
+			id.Name = "cp"
+		}
+		return true
+	})
+}
+
 func c11Method(f *ast.File, recv, name string) *ast.FuncDecl {
 	for _, d := range f.Decls {
 		fn, ok := d.(*ast.FuncDecl)
@@ -508,6 +531,7 @@ func c11ExtractStatePlumb(repo string) (string, string, error) {
 	if run == nil {
 		return "", "", fmt.Errorf("method runner.run not found")
 	}
+	c11RenameCheckpointVar(run)
 	tr := &c11Plumb{fn: "runner.run", modVars: map[string]bool{}, runCtx: runCtx, runCtxOn: runCtxOn}
 	// the modifier variable of the top-level resume: `_, m := getCheckPointInfo(opts...)`
 	ast.Inspect(run.Body, func(n ast.Node) bool {
@@ -633,6 +657,7 @@ func c11ExtractStatePlumb(repo string) (string, string, error) {
 		if fn == nil {
 			return "", "", fmt.Errorf("method runner.%s not found", name)
 		}
+		c11RenameCheckpointVar(fn)
 		th := &c11Plumb{fn: "runner." + name, modVars: map[string]bool{}, runCtxOn: runCtxOn}
 		hBody, inH, err := c11Prepare(repo, grun, fn, th.mentions, c11NormOpts{mergeIfs: true})
 		if err != nil {
